@@ -81,3 +81,10 @@ check("C03",
   "For every formula of the bound (all 5910 ordered families of <= 3 terms over {f,g,h,x} with/without intercept, plus factor-order, second-numeric, C/T/S and multi-column-atom variants) the real design_matrices builds X on replicated complete-factorial integer data; z3 (QF_LRA) shows that no non-zero coefficient vector annihilates X and that span(X) equals the span of the complete-indicator coding of every term (both inclusions, witnesses re-checked in exact arithmetic). A failure to build the matrix is a violation. Deficiencies are re-tested at a second data point and replayed with exact fraction elimination.",
   "Only the coefficient vectors are symbolic (this is the weakest fit to the family and is labelled 'other'); formulas/levels/data are enumerated. General position is represented by integer pseudo-random data (full rank at a point implies generic full rank). bs/poly/scale atoms are represented by an integer two-column stand-in.",
   "DESIGN.md section 4 C03")
+
+check("C13",
+  "QF_LRA rank/span decisions (all coefficient vectors) on the real Treatment/Sum matrices and on design matrices of recoded formulas; coding options through the real pipeline on z3-real cells",
+  "model_checking",
+  "(1) For every level count in the bound and every reference/omit index the real Treatment/Sum matrices have the documented shape, [1|reduced] has full column rank and the full matrix rank n (z3, QF_LRA), columns are level indicators / zero-sum contrasts with the omitted level -1, labels name the column levels. (2) C/T/S with every permutation of the levels as levels=, every ref/omit (levels include 0 and a negative value) run through the real pipeline with z3-real numeric cells: label order and column meaning equal the declared order with the first level / ref / omit left out. (3) For 10 formula templates, replacing the coding of f and g among 7 spellings each leaves span(X) unchanged and X full rank (z3, QF_LRA, two real runs).",
+  "Trusted: z3; exact integer matrices; stubs in evidence for part (2). Level counts / permutations / templates are enumerated; coefficient vectors and numeric cells are the symbolic part.",
+  "DESIGN.md section 4 C13")
